@@ -107,7 +107,7 @@ ASSUMPTIONS = [
     "the path of `help <path>` names commands of the generated tree (`help help` shows the page of `help`, `help --help` the application page)",
 ]
 BATCH = 300
-BUDGET_S = {"quick": 80, "thorough": 800}
+BUDGET_S = {"quick": 200, "thorough": 800}   # quick: a safety cut-off only (about 65 s on a quiet machine)
 
 ANSI_RE = re.compile(r"\x1b\[[0-9;]*m")
 # outer indentation of the direct renderings (the runs of `help ...` never pass one)
